@@ -22,7 +22,9 @@ class AbsPt(tuple):
     """a 4-tuple (so the real constructors' asserts pass) carrying (k, t)"""
     L = None
     def __new__(cls, k, t):
-        o = tuple.__new__(cls, (None, None, None, None))
+        # the first slot is a fresh object: two abstract points never compare equal as tuples unless they are the very
+        # same representation (value-equal points reached by different routes have different coordinates in general)
+        o = tuple.__new__(cls, (object(), None, None, None))
         o.k = norm_mod(k if z3.is_expr(k) else z3.IntVal(k), AbsPt.L) if AbsPt.L else norm(k if z3.is_expr(k) else z3.IntVal(k))
         o.t = norm(t if z3.is_expr(t) else z3.IntVal(t))
         return o
